@@ -36,7 +36,7 @@ vlib.known_findings = _known_with_proposed
 
 class P(vlib.Prop):
     pid = "C02"
-    coq_dirs = ["Common", "C02"]
+    coq_dirs = ["Common", "C02", "Generated"]
     coq_targets = ["C02/Properties.vo", "C02/Witness.vo", "C02/Harness.vo"]
     properties_module = "C02.Properties"
     properties_file = "C02/Properties.v"
@@ -75,6 +75,11 @@ class P(vlib.Prop):
         "assumed semantics of sync.Mutex (mutual exclusion, no fairness), 1-slot buffered channel, select, context cancellation, sync.Cond for consumers, sync.Pool (Get returns any pooled object or a new one; Put makes the object available)",
         "Go harness harness/C02/queue_test.go + go test -overlay; Go toolchain; error-free mock storage (storagetest)",
     ]
+    def translate(self, ctx):
+        # translator T1: Capacity(), linkedQueue.hasElements and the method sets of the modelled types are re-read from
+        # the current source on every run; coq/C02/Obligations.v equates the model / the audited API lists with them
+        vlib.go2coq(ctx, "exporter", os.path.join(_HERE, "t1_spec.json"), "C02Queue")
+
     assumptions = [
         "everything between Lock and Unlock of the queue mutex is one atomic step; data guarded by the mutex is only touched inside it",
         "storage operations of the persistent queue succeed (crashes and storage errors are C01's subject); the queue starts on an empty store",
